@@ -5,7 +5,7 @@
     every operation starts with brings it back within capacity or evicts a whole batch
     (progress); a fresh insert heavier than the capacity is never retained.
     Concurrent cache: see the sync section (after the maintenance run that empties the queues). *)
-From MM Require Import Unsync.UInvDefs Unsync.UInv Unsync.UPolicyDefs Unsync.UPolicy Sync.SInvDefs Sync.SInvWrites Sync.SInvTop Conc.HK.
+From MM Require Import Unsync.UInvDefs Unsync.UInv Unsync.UPolicyDefs Unsync.UPolicy Sync.SInvDefs Sync.SInvWrites Sync.SInvTop Sync.SPolicyDefs Sync.SPolicy Conc.HK.
 
 Theorem C04_unsync_never_grows_beyond_capacity : forall c r o r' out cap,
   cfg_ok c -> WF' c (ur_state r) -> small (ur_state r) -> ustep c r o = Ok (r', out) -> uc_cap c = Some cap ->
@@ -53,6 +53,39 @@ Theorem C04_conc_overshoot_bound : forall cap a0 progs st,
   h_resident st <= cap + WRITE_LOG_SIZE + N.of_nat (length progs).
 Proof. exact hk_overshoot. Qed.
 
+(** after a maintenance run the weighted size (= the physical resident weight) is within
+    capacity, or a whole batch of entries was evicted *)
+Theorem C04_sync_within_capacity_after_maintenance : forall c s now s' cap,
+  scfg_ok c -> SInv c s -> s_small s -> s_sync c s now = Ok s' -> sc_cap c = Some cap ->
+  s_ws s' <= cap \/ (size (s_map s') + N.to_nat S_EVICTION_BATCH_SIZE <= size (s_map s) + length (s_wq s))%nat.
+Proof. exact s_sync_capacity. Qed.
+(** a pending fresh insert heavier than the capacity is rejected by the next maintenance run (middle branch) *)
+Theorem C04_sync_oversized_never_retained : forall c s k ve w s',
+  scfg_ok c -> SInv c s -> s_small s -> pending_insert c s k ve w ->
+  apply_writes c s 1 = Ok s' ->
+  SInv c s' /\ quiescent s' /\
+  match sc_cap c with
+  | None =>
+      s_view s' = s_view s /\ s_lru_keys s' = s_lru_keys s ++ [k] /\ s_ws s' = s_ws s + w
+  | Some cap =>
+    if s_ws s + w <=? cap then
+      s_view s' = s_view s /\ s_lru_keys s' = s_lru_keys s ++ [k] /\ s_ws s' = s_ws s + w
+    else if cap <? w then
+      s_view s' = delete k (s_view s) /\ s_prob s' = s_prob s /\ s_wo s' = s_wo s /\ s_ws s' = s_ws s
+    else match tinylfu_victims (s_lru_triples s) w (frequency (s_sk s) (sc_hash c k)) with
+         | Some p =>
+             s_view s' = delete_keys (p.*1.*1) (s_view s) /\
+             s_lru_keys s' = drop (length p) (s_lru_keys s) ++ [k] /\
+             p.*1.*1 = take (length p) (s_lru_keys s) /\
+             s_ws s' + sum_w p = s_ws s + w
+         | None =>
+             s_view s' = delete k (s_view s) /\ s_prob s' = s_prob s /\ s_wo s' = s_wo s /\ s_ws s' = s_ws s
+         end
+  end.
+Proof. exact s_pending_insert_outcome. Qed.
+
+Print Assumptions C04_sync_within_capacity_after_maintenance.
+Print Assumptions C04_sync_oversized_never_retained.
 Print Assumptions C04_sync_ws_is_resident_weight_after_maintenance.
 Print Assumptions C04_sync_maintenance_quiesces.
 Print Assumptions C04_conc_overshoot_bound.
